@@ -42,6 +42,11 @@ def _shared_sub_job(updates):
     n = NodeTemplate('n', operators=[op])
     sub = CircuitTemplate('sub', nodes={'a': n, 'b': n})
     top = CircuitTemplate('top', circuits={'s1': sub, 's2': sub})
+    if updates and updates[0][0] == 'DEEP':      # three levels: one mid-level circuit object at two places of the top circuit
+        leaf = CircuitTemplate('leaf', nodes={'a': n})
+        mid = CircuitTemplate('mid', circuits={'c1': leaf, 'c2': leaf})
+        top = CircuitTemplate('top', circuits={'s1': mid, 's2': mid})
+        updates = updates[1:]
     try:
         for path, val in updates:
             top.update_var(node_vars={path + '/op/k': np.array(val) if isinstance(val, list) else float(val)})
@@ -53,14 +58,18 @@ def _shared_sub_job(updates):
 
 
 def shared_subcircuit(ctx):
-    scen = [[('s1/a', 9)], [('s2/b', 7)], [('all/a', [11, 12])], [('s1/all', [5, 6])], [('s1/a', 9), ('s2/a', 4)], [('all/all', 3), ('s2/b', 8)]]
-    nodes = ['s1/a', 's1/b', 's2/a', 's2/b']
+    scen = [[('s1/a', 9)], [('s2/b', 7)], [('all/a', [11, 12])], [('s1/all', [5, 6])], [('s1/a', 9), ('s2/a', 4)], [('all/all', 3), ('s2/b', 8)],
+            [('DEEP', 0), ('s1/c1/a', 9)], [('DEEP', 0), ('s2/c2/a', 7), ('s1/c2/a', 5)], [('DEEP', 0), ('all/c1/a', [11, 12])]]
+    nodes2 = ['s1/a', 's1/b', 's2/a', 's2/b']
+    nodes3 = ['s1/c1/a', 's1/c2/a', 's2/c1/a', 's2/c2/a']
     def matches(pat, node):
         return all(p == 'all' or p == q for p, q in zip(pat.split('/'), node.split('/')))
     for sc, o in zip(scen, run_cases(_shared_sub_job, scen, timeout=120)):
         ctx.case(key=['shared-subcircuit', sc]); ctx.replayed += 1
+        deep = sc[0][0] == 'DEEP'
+        nodes = nodes3 if deep else nodes2
         exp = {nd: 2.0 for nd in nodes}
-        for pat, val in sc:
+        for pat, val in (sc[1:] if deep else sc):
             hit = [nd for nd in nodes if matches(pat, nd)]
             for i, nd in enumerate(hit):
                 exp[nd] = float(val[i]) if isinstance(val, list) else float(val)
